@@ -198,6 +198,13 @@ def main(pid, level, body):
     run = Run(pid, a.tier, seed, level)
     try:
         body(run, a.replay)
+        if a.replay is None and not os.environ.get("VERIF_NO_PURITY"):
+            # cross-cutting growth (specs/Purity.tla): the public functions behind this property leave their arguments alone and give
+            # the same answer for the same call, whatever was called in between
+            from . import purity, purity_calls
+            calls = purity_calls.calls_for(pid, seed)
+            if calls:
+                purity.purity_part(run, pid, calls)
     except SystemExit:
         raise
     except BaseException:
